@@ -196,7 +196,18 @@ let () =
             (match after_head data with
              | None -> "oracle=fail@no-head-boundary"
              | Some rest ->
-               if not (oracle_c03_msg small_body_len h rest o) then "oracle=fail@" ^ label h o
+               (* the header fields the implementation reports are those the GRAMMAR of Model/Head.v reads from the
+                  bytes that were sent (field lines: token ":" OWS value OWS, value of HTAB / SP / VCHAR): a framing
+                  field that violates it is rejected, never repaired into a length or a coding *)
+               let head_len = List.length data - List.length rest - 4 in
+               let head_bytes = List.filteri (fun j _ -> j < head_len) data in
+               let field_lines = (match List.map trim_trailing_cr (split_on (n_of_int 10) head_bytes) with _ :: t -> t | [] -> []) in
+               let grammar = (match parse_header_lines true true field_lines with
+                   | Ok hl -> if hl = snd h then "" else "header-fields-differ-from-the-bytes-sent"
+                   | Err _ -> "head-accepted-although-a-field-line-violates-the-grammar"
+                   | Panic -> "head-accepted-although-a-field-line-violates-the-grammar") in
+               if grammar <> "" then "oracle=fail@" ^ grammar
+               else if not (oracle_c03_msg small_body_len h rest o) then "oracle=fail@" ^ label h o
                else if (match file_wanted o, List.nth file_toks i with
                    | Some want, Some got -> want <> got
                    | Some _, None -> true
